@@ -71,10 +71,61 @@ Definition unix_components (s : str) : list str :=
 Definition is_absolute_unix (s : str) : bool :=
   match s with c :: _ => Ascii.eqb c slash | [] => false end.
 
-(* the text carried by NotNormalized: to_string_lossy. For well-formed UTF-8 it is the text itself;
-   ill-formed text is replaced lossily (known finding F7) - the replacement is not modelled byte for
-   byte: [lossy_mark] tags it so that comparisons can recognise the class. *)
-Definition lossy (s : str) : str := s.
+(* The text carried by NotNormalized: String::from_utf8_lossy (core::str::lossy::Utf8Chunks): well-formed
+   sequences are kept; every maximal prefix of an ill-formed sequence (the lead byte plus the
+   continuation bytes that were still acceptable) is replaced by one U+FFFD (EF BF BD). *)
+Definition fffd : str := [ascii_of_nat 239; ascii_of_nat 191; ascii_of_nat 189].
+Definition in_range (lo hi : nat) (c : ascii) : bool := Nat.leb lo (b c) && Nat.leb (b c) hi.
+Fixpoint lossy_fuel (fuel : nat) (s : str) : str :=
+  match fuel with
+  | O => []
+  | S fuel' =>
+    match s with
+    | [] => []
+    | c0 :: r =>
+        let n := b c0 in
+        if Nat.leb n 127 then c0 :: lossy_fuel fuel' r
+        else if Nat.leb 194 n && Nat.leb n 223 then
+          match r with
+          | c1 :: r1 => if cont c1 then c0 :: c1 :: lossy_fuel fuel' r1 else fffd ++ lossy_fuel fuel' r
+          | [] => fffd
+          end
+        else if Nat.leb 224 n && Nat.leb n 239 then
+          let lo := if Nat.eqb n 224 then 160 else 128 in
+          let hi := if Nat.eqb n 237 then 159 else 191 in
+          match r with
+          | c1 :: r1 =>
+              if in_range lo hi c1 then
+                match r1 with
+                | c2 :: r2 => if cont c2 then c0 :: c1 :: c2 :: lossy_fuel fuel' r2 else fffd ++ lossy_fuel fuel' r1
+                | [] => fffd
+                end
+              else fffd ++ lossy_fuel fuel' r
+          | [] => fffd
+          end
+        else if Nat.leb 240 n && Nat.leb n 244 then
+          let lo := if Nat.eqb n 240 then 144 else 128 in
+          let hi := if Nat.eqb n 244 then 143 else 191 in
+          match r with
+          | c1 :: r1 =>
+              if in_range lo hi c1 then
+                match r1 with
+                | c2 :: r2 =>
+                    if cont c2 then
+                      match r2 with
+                      | c3 :: r3 => if cont c3 then c0 :: c1 :: c2 :: c3 :: lossy_fuel fuel' r3 else fffd ++ lossy_fuel fuel' r2
+                      | [] => fffd
+                      end
+                    else fffd ++ lossy_fuel fuel' r1
+                | [] => fffd
+                end
+              else fffd ++ lossy_fuel fuel' r
+          | [] => fffd
+          end
+        else fffd ++ lossy_fuel fuel' r
+    end
+  end.
+Definition lossy (s : str) : str := lossy_fuel (S (length s)) s.
 
 Definition normalize_unix (s : str) : target :=
   if is_absolute_unix s then TRaw (lossy s)
